@@ -125,6 +125,15 @@ CHECKS = {
              "AES/DES key must be the standard one.",
         note="PKCS#3 DH private keys are parsed with the openssl command line tool (Botan 2 lacks the key type); generic-secret check values are not judged "
              "(PKCS#11 defines none)."),
+    "C17": dict(
+        category="exploration", design_ref="DESIGN.md 3/C17",
+        technique="exhaustive enumeration under AddressSanitizer, one process snapshot per case: keyed operations x object kinds x advertised mechanisms x parameter variants; every single-argument deviation (thorough: all pairs) of a valid request for all 68 entry points from 20 base states; depth-2 Init/continuation sequences; every truncation, byte and length-field mutation of object file, token file and configuration file",
+        text="~95 000 (quick) cases; the oracle is memory-safety and liveness only: the call returns a CK_RV, the process neither dies nor exits nor produces an "
+             "ASan report, and a health sequence still works afterwards. Every buffer handed to the library ends at a PROT_NONE guard page, so over-reads of "
+             "caller memory fault immediately.",
+        note="Argument domains and mutation menus as in the check source (t=1 quick, t=2 thorough); pointers that do not reference memory of the stated size "
+             "(NULL with a length inside parameter structs, NULL template values outside C_GetAttributeValue) are outside the property's precondition and not "
+             "generated; file mutations cover an AES/data object file, an RSA private key file, token.object and softhsm2.conf."),
 }
 
 NOT_YET = "check under construction in this session; not claimed yet (DESIGN.md Appendix D gives the build order)"
@@ -153,7 +162,7 @@ def main():
         "setup_cmd": "python3 tools/build_sut.py ossl-asan ossl-plain ref",
         "hooks": {"guard": "SOFTHSM_VERIF", "enable": "tools/build_sut.py passes -DSOFTHSM_VERIF to every variant it compiles from /repo's working tree",
                   "baseline_off_cmd": "cmake --build /repo/_build && ctest --test-dir /repo/_build -j8 --timeout 900",
-                  "source_commits": [], "fix_commits": ["6bd3dce", "e87af21", "bea9994", "588c9b7", "ceb5015", "813a6d6", "2adb934", "9affe31", "8d94e13", "fd7cd14", "084c459"], "add_only": True},
+                  "source_commits": [], "fix_commits": ["6bd3dce", "e87af21", "bea9994", "588c9b7", "ceb5015", "bf60869", "58c10b5", "813a6d6", "2adb934", "9affe31", "8d94e13", "fd7cd14", "084c459"], "add_only": True},
         "engines": [
             {"name": "p11sh", "path": "engine/p11sh", "serves_properties": sorted(CHECKS), "kind_free_text": "PKCS#11 shell linked statically against the SUT; SNAP/BACK process snapshots; guard pages + canaries around every buffer"},
             {"name": "p11mc", "path": "py/p11mc", "serves_properties": sorted(CHECKS), "kind_free_text": "explicit-state explorer (level-synchronous BFS with replay-to-state, unmerged DFS), reference models, evidence/findings glue"},
